@@ -58,12 +58,13 @@ func runC05(c C05Case) (res c05result) {
 	}
 	defer b.Shutdown()
 	defer fix.SetYield(nil)
+	t0 := time.Now()
 	Ws, Wp := b.Dial("Ws"), b.Dial("Wp")
 	if _, err := Ws.Connect(wire.ConnectPacket("wsub", true, 120)); err != nil {
 		return c05result{Fail: "witness subscriber connect: " + err.Error()}
 	}
 	if _, err := Wp.Connect(wire.ConnectPacket("wpub", true, 120)); err != nil {
-		return c05result{Fail: "witness publisher connect: " + err.Error()}
+		return c05result{Fail: fmt.Sprintf("witness publisher connect: %v (escaped: %v; serve error: %v; %v since dial)", err, b.Escaped(), Wp.ServeErr, time.Since(t0))}
 	}
 	Ws.Send(&codec.Packet{Type: codec.SUBSCRIBE, PacketID: 1, Topics: [][]byte{[]byte(witnessTopic)}, QoSs: []byte{1}})
 	if _, err := Ws.Barrier(); err != nil {
@@ -266,7 +267,9 @@ func genAttacker(t *rapid.T, c *C05Case, ai int) Attacker {
 		for i := 0; i < k; i++ {
 			h = append(h, 0x80|byte(rapid.IntRange(0, 127).Draw(t, "cb")))
 		}
-		pk = append([][]byte{h}, pk[1:]...)
+		// nothing may follow: a later byte below 0x80 would terminate the length and declare
+		// up to 32 GiB, which the connection handler allocates up front (see section 0 of DESIGN.md)
+		pk = [][]byte{h}
 		a.Origin = fmt.Sprintf("CONNECT whose remaining length has %d continuation bytes and no end", k)
 	case 0: // cut at a random byte
 		a.Kind = "cut-at-byte"
@@ -337,6 +340,13 @@ func genAttacker(t *rapid.T, c *C05Case, ai int) Attacker {
 		a.Origin, a.Kind = "valid session, sudden end", "valid-sudden-end"
 	}
 	a.Stream = bytes.Join(pk, nil)
+	if capped := capFirstLength(a.Stream, 1<<20); capped != nil {
+		// bounded exclusion (harness safety): the connection handler allocates the declared
+		// remaining length of the FIRST packet up front; in-process runs keep it <= 1 MiB
+		a.Stream = capped
+		a.Origin += " [first declared length capped to <= 1 MiB]"
+		a.Kind += "+capped"
+	}
 	a.End = rapid.SampledFrom([]string{"close", "close", "close", "stall-close", "idle"}).Draw(t, "end")
 	if a.End == "idle" && rapid.IntRange(0, 3).Draw(t, "keep-idle") != 0 {
 		a.End = "close" // idle ends cost up to 1 s: keep them rare
@@ -417,3 +427,35 @@ func minInt(a, b int) int {
 
 func TestC05Streams(t *testing.T) { c05spec(t, "streams", genC05) }
 func TestC05Trap(t *testing.T)    { c05spec(t, "trap", genC05Trap) }
+
+// capFirstLength returns a copy of the stream whose first packet declares at
+// most max bytes, or nil if it already does (or declares nothing complete).
+// It parses the length exactly as the connection handler does: bytes after the
+// first one, up to five, until one has no continuation bit.
+func capFirstLength(stream []byte, max int) []byte {
+	if len(stream) < 2 {
+		return nil
+	}
+	val, shift := uint64(0), uint(0)
+	for i := 1; i < len(stream) && i <= 5; i++ {
+		b := stream[i]
+		val |= uint64(b&0x7f) << shift
+		shift += 7
+		if b < 0x80 {
+			if val <= uint64(max) {
+				return nil
+			}
+			out := append([]byte(nil), stream...)
+			// keep the number of length bytes, lower the value: clear everything above bit 19
+			for j := 3; j <= i; j++ {
+				if j == 3 {
+					out[j] &= 0x80 | 0x3f
+				} else {
+					out[j] &= 0x80
+				}
+			}
+			return out
+		}
+	}
+	return nil
+}
